@@ -490,8 +490,7 @@ func c03domain(c *Ctx) {
 	ok := false
 	eachInstr(sm, func(i ssa.Instruction) {
 		if rt, ok2 := i.(*ssa.Return); ok2 && len(rt.Results) == 1 {
-			t := facts.Term(rt.Results[0])
-			if t == "geth/crypto.Keccak256Hash([(geth/common.Hash).Bytes(geth/crypto.Keccak256Hash([(*N/vaa.VAA).signingBody(v)]))])" {
+			if d, inner := keccakChain(rt.Results[0]); d == 2 && facts.Term(inner) == "(*N/vaa.VAA).signingBody(v)" {
 				ok = true
 			}
 		}
